@@ -43,11 +43,16 @@ func (k Keeper) handleBridgeHook(ctx sdk.Context, data []byte, hookMaxGas uint64
 		return
 	}
 
-	ctx, err = k.decorators(ctx, tx, false)
+	// the ante decorators may return an empty context together with an error
+	// (e.g. when a message carries an undecodable signer address); keep our own
+	// context in that case so that the deferred gas accounting above never
+	// dereferences a nil gas meter and the failure stays contained.
+	anteCtx, err := k.decorators(ctx, tx, false)
 	if err != nil {
 		reason = fmt.Sprintf("Failed to run AnteHandler: %s", err)
 		return
 	}
+	ctx = anteCtx
 
 	// use cache context from here to avoid resetting sequencer number on failure
 	cacheCtx, commit := ctx.CacheContext()
